@@ -9,7 +9,7 @@ STUBS = ["ThreadPoolExecutor(2) / Future -> SimPool / SimFuture (FIFO queue, 2 w
          "completing thread or immediately when already done)", "threading.Lock in _next_id: the method is one atomic step (the lock is assumed to work)",
          "scheduler: running thread continues until it ends or blocks; <= c pre-emptions at SYMBOLIC step indexes (c = 1 quick, 2 thorough); forced switches by symbolic picks",
          "atomicity: one source statement (x += 1 split into load/store)"]
-OUTSIDE = ["the 10 s result() timeout (tasks are assumed to finish)", "more than 3 tasks / more than 2 pre-emptions", "bytecode-level races inside one expression"]
+OUTSIDE = ["the 10 s result() timeout (tasks are assumed to finish)", "tasks failing with BaseException-only errors (flush re-raises those: Future.result does; no such error is raised by the push task itself)", "more than 3 tasks / more than 2 pre-emptions", "bytecode-level races inside one expression"]
 
 
 class TaskFail(Exception):
